@@ -31,7 +31,7 @@ TsOf(c) == IF "ts" \in DOMAIN c THEN c.ts ELSE TS
 DevList == <<"DevInputValueNotForwarded", "DevOverlapMissesConflicts", "DevOverlapFalseConflict",
              "DevInputObjectNonObjectAccepted", "DevEnumAcceptsString", "DevUnsuppliedVarSkipsArgCheck",
              "DevDuplicateInputFieldsCollapsed", "DevTypenameNotVisited", "DevNoSingleRootFieldRule",
-             "DevVarDefDirectivesNotVisited", "DevDefaultOfUnknownListTypePanics">>
+             "DevVarDefDirectivesNotVisited">>
 ClauseList == <<"LoneAnonymousOperation", "UniqueOperationNames", "SingleRootFieldSubscription.single",
                 "SingleRootFieldSubscription.introspection", "FieldsOnCorrectType", "FieldsInSetCanMerge",
                 "ScalarLeafs.selectionOnLeaf", "ScalarLeafs.noSelectionOnComposite", "KnownArgumentNames",
@@ -45,8 +45,7 @@ ClauseList == <<"LoneAnonymousOperation", "UniqueOperationNames", "SingleRootFie
                 "VariablesInAllowedPosition", "DocumentedRestrictions.uploadOutsideMutation">>
 ASSUME \A i \in 1..Len(DevList) : PrintT(<<"LEGEND", "D", i, DevList[i]>>)
 ASSUME \A i \in 1..Len(ClauseList) : PrintT(<<"LEGEND", "C", i, ClauseList[i]>>)
-PanicDev == "DevDefaultOfUnknownListTypePanics"
-AllDevs == Range(DevList) \ {PanicDev}      \* the switches of Validation.tla
+AllDevs == Range(DevList)      \* the switches of Validation.tla
 RECURSIVE Code(_, _, _)
 Code(S, list, i) ==     \* indices of the members of S in list, joined by "."
   IF i > Len(list) THEN (IF S \subseteq Range(list) THEN "" ELSE "?")
@@ -57,20 +56,6 @@ Rejected(c) == c.obs.parseErr \/ c.obs.validationErr
 WellFormedRejection(c) ==
   Rejected(c) => /\ c.obs.resolverRuns = 0 /\ ~c.obs.executed
                  /\ \E i \in 1..Len(c.obs.rejErrors) : Len(c.obs.rejErrors[i].locs) >= 1
-
-\* ---- DevDefaultOfUnknownListTypePanics: DefaultValuesOfCorrectType only stops early for an unknown type when the
-\* variable type is a bare (possibly non-null) name; for a list type it walks the default value and
-\* is_valid_input_value panics ("Type `X` not defined") as soon as a non-null leaf reaches the unknown name.
-RECURSIVE ReachesNamed(_, _)
-ReachesNamed(ty, v) ==
-  IF ty.k = "nn" THEN v.k # "null" /\ ReachesNamed(ty.of, v)
-  ELSE IF v.k = "null" THEN FALSE
-  ELSE IF ty.k = "list" THEN (IF v.k = "list" THEN \E i \in 1..Len(v.items) : ReachesNamed(ty.of, v.items[i]) ELSE ReachesNamed(ty.of, v))
-  ELSE TRUE
-PanicTrigger(c, C) ==
-  \E o \in 1..Len(c.doc.ops) : \E i \in 1..Len(c.doc.ops[o].vars) :
-     LET vd == c.doc.ops[o].vars[i] IN
-     vd.hasDefault /\ NullableOf(vd.ty).k = "list" /\ ~TypeExists(C, NamedOf(vd.ty)) /\ ReachesNamed(vd.ty, vd.default)
 
 \* ---- verdict ----
 Predict(c, D) == Violations(Ctx(c, TsOf(c), D)) # {}
@@ -83,7 +68,7 @@ FirstDev(c, ideal) ==
 
 Verdict(c, ideal) ==
   IF c.obs.problem # "" THEN "v:problem"
-  ELSE IF c.obs.panic # "" THEN (IF PanicTrigger(c, Ctx(c, TsOf(c), {})) THEN "k:" \o Code({PanicDev}, DevList, 1) ELSE "v:panic")
+  ELSE IF c.obs.panic # "" THEN "v:panic"       \* a panic inside Schema::execute is never a rejection
   ELSE IF ~WellFormedRejection(c) THEN "v:malformed-rejection"
   ELSE IF Rejected(c) = (ideal # {}) THEN "ok"
   ELSE FirstDev(c, ideal)
